@@ -319,7 +319,34 @@ def run(prog, ctx):
     # the per-step caches: the two of the pinned tree plus every other attribute the constructor starts as an empty dict
     KNOWN_CACHES = ("subtraction_value_cache", "max_level_dict")
     found = [s.attr for s in R.self_stores(sd.methods["__init__"]) if s.kind == "plain" and isinstance(s.value, ast.Dict) and not s.value.keys]
-    for cache in list(KNOWN_CACHES) + sorted(set(found) - set(KNOWN_CACHES)):
+    # a new dict whose entries depend on the key alone (the memoised computation reads no instance state) cannot be outdated by a
+    # refinement step: it needs no reset (what it may depend on is judged by the generic rule S2)
+    from .. import statecheck as SC
+    raw = SC.raw_of(prog)
+    key_only = set()
+    rcd = raw.classes.get(SD)
+    if rcd is not None:
+        for memo in SC.find_memos(SD, rcd, lambda a: a in set(found) - set(KNOWN_CACHES)):
+            _, attr_nodes = SC._names_closure(memo.fn, memo.region)
+            reads = SC._attr_reads_through_calls(raw, SC._family(prog, SD), memo.fn, list(memo.region) + list(attr_nodes))
+            # what a refinement step changes: the refinement structure (in place, through its own methods) and whatever the
+            # post-processing and the methods it calls store
+            changed = {"refinement"}
+            todo, seen_m = [rp.name], set()
+            fam_methods = {m.name: m for q_ in SC._family(prog, SD) if q_ in raw.classes for m in SC.methods_of(raw.classes[q_])}
+            while todo:
+                nm_ = todo.pop()
+                if nm_ in seen_m or nm_ not in fam_methods:
+                    continue
+                seen_m.add(nm_)
+                changed |= set(SC._stores_of(fam_methods[nm_]))
+                me_ = SC.self_name(fam_methods[nm_])
+                for x_ in ast.walk(fam_methods[nm_]):
+                    if isinstance(x_, ast.Call) and isinstance(x_.func, ast.Attribute) and isinstance(x_.func.value, ast.Name) and x_.func.value.id == me_:
+                        todo.append(x_.func.attr)
+            if not (set(reads) - {memo.attr}) & changed and not SC.check_memo(prog, raw, memo):
+                key_only.add(memo.attr)
+    for cache in list(KNOWN_CACHES) + sorted(set(found) - set(KNOWN_CACHES) - key_only):
         sts = [s for s in R.self_stores(rp, cache) if s.kind == "plain" and isinstance(s.value, ast.Dict) and not s.value.keys]
         ok = bool(sts) and any(crp.post_dominates(R.cfg_node(rp, s.stmt), crp.entry) for s in sts)
         ctx.check(ok, "C03.D5", R.key_of(rp, "reset:%s" % cache), rp.loc(sts[0].stmt) if sts else rp.loc(),
